@@ -405,6 +405,33 @@ func limit() {
 	b.Close()
 	vrt.Quiesce()
 }
+// afterFailedSends runs a scenario after two sends that failed on OTHER
+// connections of the process (one closed by its peer, one closed locally):
+// whatever a failed write leaves behind must not disturb later senders.
+func afterFailedSends(inner func()) func() {
+	return func() {
+		for i := 0; i < 2; i++ {
+			ca, cb := vnet.NewPair(fmt.Sprintf("dead%d", i), fmt.Sprintf("dead%d-peer", i))
+			e := net.NewEndPoint(ca)
+			if i == 0 {
+				cb.Close()
+			} else {
+				ca.Close()
+			}
+			vrt.Quiesce()
+			m := net.NewMessage(net.NewHeader(net.Post, 1, 9, 50, 100), payload(100, 5))
+			if e.Send(m) == nil {
+				vrt.Flag("send-on-dead-connection-succeeded")
+			}
+			m2 := net.NewMessage(net.NewHeader(net.Post, 1, 9, 50, 100), payload(100, 40))
+			if m2.Write(ca) == nil {
+				vrt.Flag("write-on-dead-connection-succeeded")
+			}
+			vrt.Quiesce()
+		}
+		inner()
+	}
+}
 
 func init() {
 	reg.Register(&reg.Scenario{Property: "C10", Name: "two-senders-one-frame-exhaustive", Body: light, Quick: 2, Thorough: 99,
@@ -419,6 +446,8 @@ func init() {
 		Doc: "2 senders x 2 Call frames; the first registered handler selects everything but never drains its 1-slot queue", MustFlag: []string{"sender-overtaken"}})
 	reg.Register(&reg.Scenario{Property: "C10", Name: "two-senders", Body: body(2, 2, false, net.Post, false), Quick: 2, Thorough: 5,
 		Doc: "2 senders x 2 frames on one endpoint, 4 handler filters on the peer", MustFlag: []string{"sender-overtaken"}})
+	reg.Register(&reg.Scenario{Property: "C10", Name: "two-senders-after-failed-sends", Body: afterFailedSends(body(2, 2, false, net.Post, false)), Quick: 2, Thorough: 4,
+		Doc: "two-senders after sends that failed on two other (dead) connections of the process", MustFlag: []string{"sender-overtaken"}})
 	reg.Register(&reg.Scenario{Property: "C10", Name: "two-senders-fragmented", Body: body(2, 2, true, net.Post, false), Quick: 2, Thorough: 4,
 		Doc: "2 senders x 2 frames, reads fragmented (whole / 1 byte / all but one)", MustFlag: []string{"sender-overtaken"}})
 	reg.Register(&reg.Scenario{Property: "C10", Name: "three-senders", Body: body(3, 2, false, net.Event, false), Quick: 2, Thorough: 5,
